@@ -1,0 +1,34 @@
+//go:build verif
+
+package goja
+
+// Spec functions for the VM's exception plumbing (properties C03, C08, C14, C15).
+
+// specThrownKind classifies a panic payload the way ECMAScript-visible code may see it:
+// 1 = a JS value thrown as is, 2 = an *Exception carrying one, 3 = an internal error string that
+// becomes a fresh error object, 0 = anything else (InterruptedError, StackOverflowError, foreign
+// Go panics): never visible to script, never catchable.
+func specThrownKind(x interface{}) int {
+	switch x.(type) {
+	case *Object:
+		return 1
+	case Value:
+		return 1
+	case *Exception:
+		return 2
+	case typeError, referenceError, rangeError, syntaxError:
+		return 3
+	}
+	return 0
+}
+
+// specThrownValue: the JS value a kind-1 payload denotes.
+func specThrownValue(x interface{}) Value {
+	v, _ := x.(Value)
+	return v
+}
+
+func specThrownException(x interface{}) *Exception {
+	e, _ := x.(*Exception)
+	return e
+}
